@@ -733,25 +733,49 @@ func (m *model) schedule(q *mScq, t *mTask) {
 		o.attached = false
 		m.touchNodes(q, o.path, false)
 	}
-	best := -1
-	var set []string
+	// "Preferring a worker that last served the most closely related
+	// invocation". For a task that is part of several invocations (retry of
+	// a deduplicated task on the largest size class) the statement is
+	// unambiguous this far: a waiting worker whose last invocation shares a
+	// LONGER prefix with some invocation of the task goes before one that
+	// shares only a shorter prefix (e.g. just the root) with all of them.
+	// Closeness can also be read as the number of levels between an
+	// invocation of the task and the common ancestor; the two readings only
+	// differ when the task's invocations have different depths, in which
+	// case the best workers under either reading are accepted. Among equally
+	// close workers the choice is free.
+	type cand struct {
+		name     string
+		cp, dist int
+	}
+	var cands []cand
+	bestCp, bestDist := -1, -1
 	for _, w := range q.sortedWorkers() {
 		if !w.waiting(q) {
 			continue
 		}
-		cp := 0
-		if len(t.ops) == 1 {
-			cp = commonPrefixLen(w.lastPath, t.ops[0].path)
+		c := cand{name: w.name, cp: -1, dist: -1}
+		for _, o := range t.ops {
+			cp := commonPrefixLen(w.lastPath, o.path)
+			if cp > c.cp {
+				c.cp = cp
+			}
+			if d := len(o.path) - cp; c.dist < 0 || d < c.dist {
+				c.dist = d
+			}
 		}
-		// A task that is part of several invocations (retry of a
-		// deduplicated task): "most closely related" is not defined;
-		// every waiting worker is accepted.
-		if cp > best {
-			best = cp
-			set = nil
+		if c.cp > bestCp {
+			bestCp = c.cp
 		}
-		if cp == best {
-			set = append(set, w.name)
+		if bestDist < 0 || c.dist < bestDist {
+			bestDist = c.dist
+		}
+		cands = append(cands, c)
+	}
+	var set []string
+	for _, c := range cands {
+		if c.cp == bestCp || c.dist == bestDist {
+			set = append(set, c.name)
 		}
 	}
 	if len(set) > 0 {
